@@ -175,10 +175,28 @@ Assumed behaviour of the libraries' reference counting:
   (`Dddmp_cuddBddLoad` references the roots it loads).
 * `borrowed`: no node is created: pointer arithmetic (`Cudd_Not`, `Cudd_Regular`), a child
   pointer (`Cudd_T`, `cuddE`, `sylvan_low`), or a permanently referenced constant /
-  projection node; also a raw address converted back to a pointer.
+  projection node; also a raw address converted back to a pointer, and the collision-chain
+  pointer `DdNode.next` (no reference is attached to that field).
+* `permanent`: the call may create nodes (like `fresh`), but its result is a BDD projection
+  function, which the CUDD manager itself references for as long as it lives
+  (`Cudd_bddIthVar`: `dd->vars[i]`, referenced in `cuddInsertSubtables` / `ddResizeTable`), so the
+  result needs no protection by the caller.
+
+References kept in CONTAINERS (a C array from `PyMem_Malloc`, a Python `dict`, CUDD's
+`DdHashTable`): a container is created by the function (`alloc`, `cnew`) or belongs to the caller
+(`cparam`).  `store c x` moves one reference that the function holds on `x` into `c` (the ghost
+list `owned`); when the function holds none, `c` merely borrows `x` (somebody else must keep it
+alive).  `derefAll c fn` is the loop that dereferences EVERY element once: it gives back exactly
+what was stored (and whatever a function of the same module that was handed `c` has stored:
+`mayHold`), so it is refused on a container with borrowed elements, on a container that was
+already released, and on an array when the loop bound differs from the allocated size.  At the
+end of every path a container created by the function must hold nothing (and, reported apart as
+`arrayLeak`, an array must have been freed); a container of the caller is either left alone —
+references stored into it are handed on with it — or consumed (released AND freed).  Assumed: a C
+library function does not keep the array it is given beyond the call.
 -/
 inductive NodeKind
-  | fresh | owned | borrowed
+  | fresh | owned | borrowed | permanent
 deriving Repr, DecidableEq, Inhabited
 
 def producerKind : String → Option NodeKind
@@ -188,10 +206,11 @@ def producerKind : String → Option NodeKind
   | "Cudd_Support" | "Cudd_bddCompose" | "Cudd_bddVectorCompose" | "Cudd_Cofactor"
   | "Cudd_bddSwapVariables" | "Cudd_bddRestrict" | "Cudd_CubeArrayToBdd"
   | "Cudd_bddComputeCube" | "Cudd_bddTransfer" | "Cudd_bddTransferRename"
-  | "cuddUniqueInter" | "Cudd_bddIthVar" | "Cudd_bddNewVar" | "Cudd_bddNewVarAtLevel" => some .fresh
+  | "cuddUniqueInter" | "Cudd_bddNewVar" | "Cudd_bddNewVarAtLevel" => some .fresh
+  | "Cudd_bddIthVar" => some .permanent
   | "Dddmp_cuddBddLoad" => some .owned
   | "Cudd_Not" | "Cudd_Regular" | "Cudd_T" | "Cudd_E" | "Cudd_ReadOne" | "Cudd_ReadLogicZero"
-  | "_int_to_ddref" | "<DdRef>" => some .borrowed
+  | "_int_to_ddref" | "<DdRef>" | "DdNode.next" => some .borrowed
   -- CUDD ZDD
   | "Cudd_zddDiff" | "Cudd_zddIntersect" | "Cudd_zddUnion" | "Cudd_zddIte" | "cuddZddIte"
   | "Cudd_zddIthVar" | "Cudd_zddSupport" | "Cudd_zddSubset0" | "Cudd_zddSubset1"
@@ -242,6 +261,8 @@ structure NodeSt where
   null : Bool       -- the path assumes the node is NULL / invalid
   exposed : Bool    -- was unprotected (fresh, no reference, no handle) while a later call may have collected it
   madeFrom : List Nat := []   -- the node arguments of the call that produced it (it refers to them)
+  inCont : Nat := 0           -- references that containers followed on this path hold on the node
+  fromCont : Option Nat := none   -- loaded from this container (alive as long as the container refers to it)
 deriving Repr, Inhabited
 
 abbrev PathSt := List NodeSt
@@ -255,11 +276,12 @@ def PathSt.set (s : PathSt) (n : NodeSt) : PathSt :=
 /-- a node is protected when this function holds a reference, a handle wraps it, it is
 borrowed from somebody who holds it, or it is NULL -/
 def NodeSt.protected_ (n : NodeSt) : Bool :=
-  n.kind == .borrowed || n.held > 0 || n.wraps > 0 || n.null
+  n.kind == .borrowed || n.kind == .permanent || n.held > 0 || n.wraps > 0 || n.null || n.inCont > 0
 
 inductive PathVerdict
   | ok
   | bad (why : String) (x : Nat)
+  | arrayLeak (c : Nat)     -- everything else is fine, but the C array `c` is not freed on this path
 deriving Repr, DecidableEq, Inhabited
 
 /-- what must hold of every node when a path ends -/
@@ -288,27 +310,106 @@ def produceStep (loc : List String) (float : Bool) (s : PathSt) (x : Nat) (fn : 
       let s' := if k == .borrowed then s else
         s.map fun n => if n.protected_ then n else { n with exposed := true }
       let init : Int := if k == .owned then 1 else 0
-      .ok (s'.set ⟨x, k, init, 0, 0, 0, false, false, args⟩)
+      .ok (s'.set ⟨x, k, init, 0, 0, 0, false, false, args, 0, none⟩)
+
+/-! #### containers -/
+
+inductive ContKind
+  | array     -- `PyMem_Malloc`: must be freed by this function
+  | pyobj     -- `dict()`: a Python object, reclaimed by Python
+  | param     -- belongs to the caller
+deriving Repr, DecidableEq, Inhabited
+
+/-- bookkeeping of one container along a path -/
+structure ContSt where
+  id : Nat
+  kind : ContKind
+  size : String := ""          -- text of the number of elements allocated
+  owned : List Nat := []       -- nodes of which one reference was moved into the container (with repetition)
+  borrowed : List Nat := []    -- nodes stored without a reference
+  mayHold : Bool := false      -- was handed to a function of the same module, which may have stored references
+  released : Bool := false     -- every element was dereferenced and nothing was stored since
+  everReleased : Bool := false -- every element was dereferenced at some moment of the path
+  freed : Bool := false
+deriving Repr, Inhabited
+
+def findCont (cs : List ContSt) (c : Nat) : Option ContSt :=
+  List.find? (fun k => k.id == c) cs
+
+def setCont (cs : List ContSt) (k : ContSt) : List ContSt :=
+  k :: cs.filter (fun m => m.id != k.id)
+
+def isAllocFn : String → Bool
+  | "PyMem_Malloc" => true
+  | _ => false
+
+def isFreeFn : String → Bool
+  | "PyMem_Free" | "FREE" => true
+  | _ => false
+
+/-- what must hold of the containers when a path ends -/
+def contsEndOk (cs : List ContSt) : PathVerdict :=
+  match List.find? (fun (k : ContSt) => k.kind != .param && (!k.owned.isEmpty || k.mayHold)) cs with
+  | some k => .bad "path ends while a container of this function still holds references" k.id
+  | none =>
+    match List.find? (fun (k : ContSt) => k.kind == .param && k.everReleased != k.freed) cs with
+    | some k => .bad "a container of the caller is released without being consumed (or freed without being released)" k.id
+    | none =>
+      match List.find? (fun (k : ContSt) => k.kind == .array && !k.freed) cs with
+      | some k => .arrayLeak k.id
+      | none => .ok
+
+def endOkC (s : PathSt) (cs : List ContSt) : PathVerdict :=
+  match endOk s with
+  | .ok => contsEndOk cs
+  | v => v
+
+/-- `for each element of c: fn(mgr, element)` -/
+def derefAllStep (float : Bool) (s : PathSt) (cs : List ContSt) (c : Nat) (fn bound : String) :
+    Except PathVerdict (PathSt × List ContSt) :=
+  if !isDerefFn fn then .error (.bad ("not a dereference function: " ++ fn) c) else
+  match findCont cs c with
+  | none => .error (.bad "the elements of an untracked container are dereferenced" c)
+  | some k =>
+    if k.freed then .error (.bad "container used after it was freed" c) else
+    if !k.borrowed.isEmpty then
+      .error (.bad "every element is dereferenced, but the container only borrows some of them" c) else
+    if k.released then .error (.bad "the references of the container were already given back" c) else
+    if k.kind == .array && k.size != bound then
+      .error (.bad "the loop that gives the references back does not run over the allocated size" c) else
+    -- the references of the container go away …
+    let s1 := s.map fun n => { n with inCont := n.inCont - k.owned.count n.id }
+    -- … and with them what only the container kept alive: its elements that were loaded before,
+    -- and (recursive dereference) every node that is unprotected at this moment — the result of a
+    -- call that was given the container may BE one of its elements, so there is no `madeFrom`
+    -- exception here
+    let s2 := if float then
+        s1.map fun n =>
+          if n.fromCont == some c || (isRecursiveDerefFn fn && !n.protected_) then { n with exposed := true }
+          else n
+      else s1
+    .ok (s2, setCont cs { k with owned := [], mayHold := false, released := true, everReleased := true })
 
 /-- Run the events of one path.  `float` selects the additional check that an unprotected
-fresh node is never used after a later node-creating call. -/
-def runPath (loc : List String) (float : Bool) (returnsNode : Bool) : PathSt → List CEv → PathVerdict
-  | s, [] => endOk s
-  | s, ev :: rest =>
+fresh node is never used after a later node-creating call (or a recursive dereference). -/
+def runPathC (loc : List String) (float : Bool) (returnsNode : Bool) :
+    PathSt → List ContSt → List CEv → PathVerdict
+  | s, cs, [] => endOkC s cs
+  | s, cs, ev :: rest =>
     match ev with
     | .param x _ =>
-      runPath loc float returnsNode (s.set ⟨x, .borrowed, 0, 0, 0, 0, false, false, []⟩) rest
+      runPathC loc float returnsNode (s.set ⟨x, .borrowed, 0, 0, 0, 0, false, false, [], 0, none⟩) cs rest
     | .produce x fn args =>
       match produceStep loc float s x fn args with
       | .error v => v
-      | .ok s' => runPath loc float returnsNode s' rest
+      | .ok s' => runPathC loc float returnsNode s' cs rest
     | .ref x fn =>
       if !isRefFn fn then .bad ("not a reference function: " ++ fn) x else
       match s.node? x with
       | none => .bad "ref of an untracked node" x
       | some n =>
-        if float && n.exposed then .bad "unprotected node used after a node-creating call" x else
-        runPath loc float returnsNode (s.set { n with held := n.held + 1, refs := n.refs + 1 }) rest
+        if float && n.exposed then .bad "unprotected node used after a node-creating call or a recursive dereference" x else
+        runPathC loc float returnsNode (s.set { n with held := n.held + 1, refs := n.refs + 1 }) cs rest
     | .deref x fn =>
       if !isDerefFn fn then .bad ("not a dereference function: " ++ fn) x else
       match s.node? x with
@@ -325,40 +426,141 @@ def runPath (loc : List String) (float : Bool) (returnsNode : Bool) : PathSt →
             s1.map fun k =>
               if k.protected_ || k.id == x || k.madeFrom.contains x then k else { k with exposed := true }
           else s1
-        runPath loc float returnsNode s2 rest
+        runPathC loc float returnsNode s2 cs rest
     | .wrap x =>
       match s.node? x with
       | none => .bad "wrap of an untracked node" x
       | some n =>
-        if float && n.exposed then .bad "unprotected node used after a node-creating call" x else
-        runPath loc float returnsNode (s.set { n with wraps := n.wraps + 1 }) rest
+        if float && n.exposed then .bad "unprotected node used after a node-creating call or a recursive dereference" x else
+        runPathC loc float returnsNode (s.set { n with wraps := n.wraps + 1 }) cs rest
     | .initCall x =>
       match s.node? x with
       | none => .bad "init of an untracked node" x
-      | some n => runPath loc float returnsNode (s.set { n with wraps := n.wraps + 1 }) rest
+      | some n => runPathC loc float returnsNode (s.set { n with wraps := n.wraps + 1 }) cs rest
     | .isNull x =>
       match s.node? x with
-      | none => runPath loc float returnsNode s rest
+      | none => runPathC loc float returnsNode s cs rest
       | some n =>
         -- a call that would hand over a reference hands over none when it returns NULL
         let held := if n.kind == .owned && n.refs == 0 && n.derefs == 0 then 0 else n.held
-        runPath loc float returnsNode (s.set { n with null := true, held := held }) rest
-    | .guard _ _ => runPath loc float returnsNode s rest
-    | .retHandle => endOk s
+        runPathC loc float returnsNode (s.set { n with null := true, held := held }) cs rest
+    | .guard _ _ => runPathC loc float returnsNode s cs rest
+    | .retHandle => endOkC s cs
     | .retNode x =>
       if !returnsNode then .bad "a raw node is returned to Python without a handle" x else
       match s.node? x with
       | none => .bad "return of an untracked node" x
       | some n =>
-        if float && n.exposed then .bad "unprotected node used after a node-creating call" x else endOk s
-    | .retNull => endOk s
-    | .raise _ => endOk s
+        if float && n.exposed then .bad "unprotected node used after a node-creating call or a recursive dereference" x else endOkC s cs
+    | .retNull => endOkC s cs
+    | .raise _ => endOkC s cs
+    -- containers
+    | .alloc c fn size =>
+      if !isAllocFn fn then .bad ("not an allocation function: " ++ fn) c else
+      runPathC loc float returnsNode s (setCont cs { id := c, kind := .array, size := size }) rest
+    | .cnew c _ => runPathC loc float returnsNode s (setCont cs { id := c, kind := .pyobj }) rest
+    | .cparam c _ => runPathC loc float returnsNode s (setCont cs { id := c, kind := .param }) rest
+    | .store c x =>
+      match findCont cs c with
+      | none => .bad "store into an untracked container" c
+      | some k =>
+        match s.node? x with
+        | none => .bad "store of an untracked node" x
+        | some n =>
+          if k.freed then .bad "container used after it was freed" c else
+          if float && n.exposed then .bad "unprotected node used after a node-creating call or a recursive dereference" x else
+          if n.held > 0 then
+            -- one reference of this function moves into the container
+            runPathC loc float returnsNode (s.set { n with held := n.held - 1, inCont := n.inCont + 1 })
+              (setCont cs { k with owned := x :: k.owned, released := false }) rest
+          else
+            runPathC loc float returnsNode s (setCont cs { k with borrowed := x :: k.borrowed }) rest
+    | .load x c =>
+      match findCont cs c with
+      | none => .bad "load from an untracked container" c
+      | some k =>
+        if k.freed then .bad "container used after it was freed" c else
+        -- an element: kept alive by whoever filled the container, until its references are given back
+        runPathC loc float returnsNode
+          (s.set ⟨x, .borrowed, 0, 0, 0, 0, false, k.released, [], 0, some c⟩) cs rest
+    | .passC c fn =>
+      match findCont cs c with
+      | none => .bad "an untracked container is handed to a call" c
+      | some k =>
+        if k.freed then .bad "container used after it was freed" c else
+        if float && k.released then
+          .bad ("container handed to " ++ fn ++ " after its references were given back") c else
+        if float && k.borrowed.any (fun y => (s.node? y).any (·.exposed)) then
+          .bad ("container with an unprotected element handed to " ++ fn ++ " after a node-creating call") c else
+        -- a function of the same module may store references into a container of ours
+        let k' := if loc.contains fn && k.kind != .param then { k with mayHold := true, released := false } else k
+        runPathC loc float returnsNode s (setCont cs k') rest
+    | .derefAll c fn bound =>
+      match derefAllStep float s cs c fn bound with
+      | .error v => v
+      | .ok (s', cs') => runPathC loc float returnsNode s' cs' rest
+    | .free c fn =>
+      if !isFreeFn fn then .bad ("not a deallocation function: " ++ fn) c else
+      match findCont cs c with
+      | none => .bad "free of an untracked container" c
+      | some k =>
+        if k.freed then .bad "container freed twice" c else
+        if k.kind == .pyobj then .bad "a Python object is freed" c else
+        runPathC loc float returnsNode s (setCont cs { k with freed := true }) rest
+    | .refNonPos x =>
+      match s.node? x with
+      | none => runPathC loc float returnsNode s cs rest
+      | some n =>
+        -- the path assumes `x.ref <= 0`.  While this function, a handle or a container holds a
+        -- reference on `x` the count is at least 1 (CUDD's counters saturate, they never wrap):
+        -- the path cannot be taken, nothing is to be checked on it
+        if n.held > 0 || n.wraps > 0 || n.inCont > 0 then .ok else
+        runPathC loc float returnsNode s cs rest
+    | .setField x f y =>
+      -- `x.next = y`: the collision chain of the unique table, (ab)used as a traversal mark; the
+      -- field carries no reference, nothing moves
+      if f != "next" then .bad ("a node is stored into a field without an assumed meaning: " ++ f) x else
+      match s.node? x, s.node? y with
+      | some _, some m =>
+        if float && m.exposed then .bad "unprotected node used after a node-creating call or a recursive dereference" y else
+        runPathC loc float returnsNode s cs rest
+      | _, _ => .bad "field store on an untracked node" x
+
+def runPath (loc : List String) (float : Bool) (returnsNode : Bool) (s : PathSt) (evs : List CEv) :
+    PathVerdict :=
+  runPathC loc float returnsNode s [] evs
+
+/-- `ok`, or nothing worse than an array that is not freed (reported apart: `pathArraysFreed`) -/
+def PathVerdict.refsOk : PathVerdict → Bool
+  | .ok => true
+  | .arrayLeak _ => true
+  | .bad _ _ => false
 
 def pathBalanced (loc : List String) (m : CMethod) (p : CPath) : Bool :=
-  runPath loc false m.returnsNode [] p.events == .ok
+  (runPath loc false m.returnsNode [] p.events).refsOk
 
 def pathNoFloat (loc : List String) (m : CMethod) (p : CPath) : Bool :=
-  runPath loc true m.returnsNode [] p.events == .ok
+  (runPath loc true m.returnsNode [] p.events).refsOk
+
+/-- every C array allocated on the path is freed on it -/
+def pathArraysFreed (loc : List String) (m : CMethod) (p : CPath) : Bool :=
+  -- (a path without `alloc` has nothing to free: not run again)
+  !p.events.any (fun e => match e with | .alloc .. => true | _ => false) ||
+  match runPath loc false m.returnsNode [] p.events with
+  | .arrayLeak _ => false
+  | _ => true
+
+/-- the path ends by raising `exc` -/
+def endsInRaiseOf (exc : String) : List CEv → Bool
+  | [] => false
+  | [.raise e] => e == exc
+  | _ :: r => endsInRaiseOf exc r
+
+/-- the path assumes `x.ref <= 0` although a reference on `x` is held: it cannot be taken -/
+def pathInfeasible (loc : List String) (m : CMethod) (p : CPath) : Bool :=
+  p.events.any (fun e => match e with | .refNonPos _ => true | _ => false) &&
+  runPath loc false m.returnsNode [] p.events == .ok &&
+  runPath loc false m.returnsNode [] (p.events.filter fun e => match e with | .refNonPos _ => false | _ => true) != .ok
 
 /-! ### the handle: one reference in, one reference out -/
 
@@ -436,13 +638,22 @@ def refApiOk (inc : Bool) (m : CMethod) : Bool :=
      else if inc then countRefAll p.events == 1 && countDerefAll p.events == 0
      else countRefAll p.events == 0 && countDerefAll p.events == 1)
 
+def CEv.isContEv : CEv → Bool
+  | .alloc .. | .cnew .. | .cparam .. | .store .. | .load .. | .passC .. | .derefAll .. | .free ..
+  | .refNonPos .. | .setField .. => true
+  | _ => false
+
+/-- the functions with a special role keep no reference in a container -/
+def noContEvents (m : CMethod) : Bool :=
+  m.paths.all fun p => p.events.all fun e => !e.isContEv
+
 def methodOk (loc : List String) (m : CMethod) : Bool :=
   match m.role with
   | .plain => m.paths.all (pathBalanced loc m)
-  | .wrapFn => wrapFnOk m
-  | .handleInit => initOk m
-  | .handleDealloc => deallocOk m
-  | .refInc => refApiOk true m
-  | .refDec => refApiOk false m
+  | .wrapFn => wrapFnOk m && noContEvents m
+  | .handleInit => initOk m && noContEvents m
+  | .handleDealloc => deallocOk m && noContEvents m
+  | .refInc => refApiOk true m && noContEvents m
+  | .refDec => refApiOk false m && noContEvents m
 
 end DD
